@@ -2,7 +2,7 @@
 import gen_common
 import par_common
 
-DEP_FILES = ["FlowSemModel.v", "FlowSemProofs.v"]
+DEP_FILES = ["FlowSemModel.v", "FlowSemProofs.v", "FlowOpModel.v", "FlowOpProofs.v", "FlowAdequacy.v"]
 PID = "C04"
 
 
